@@ -416,8 +416,10 @@ fn engine_ok(models: &[TableDef]) -> bool {
 fn key_is_referenced(s: &[TableDef], table: &str, cols: &[String]) -> bool {
     s.iter().any(|t| {
         t.constraints.iter().any(|c| match c {
-            TableConstraint::ForeignKey { ref_table, ref_columns, .. } => {
-                ref_table == table && ref_columns.len() == cols.len() && ref_columns.iter().all(|x| cols.contains(x))
+            // any foreign key to the table counts (after a hand-written rename the baseline's ref_columns are stale)
+            TableConstraint::ForeignKey { ref_table, .. } => {
+                let _ = cols;
+                ref_table == table
             }
             _ => false,
         })
@@ -473,7 +475,8 @@ fn hand_step(rng: &mut Rng, baseline: &[TableDef], version: u32) -> Option<Migra
                     1 => TableConstraint::Check { name: rng.pick(&["chk_pos", "ck1", "ck2"]).to_string(), expr: format!("{} IS NOT NULL", cols[0]) },
                     _ => TableConstraint::Index { name, columns: cols },
                 };
-                if t.constraints.contains(&c) { None } else { Some(MigrationAction::AddConstraint { table: t.name.clone(), constraint: c }) }
+                let name_taken = matches!(&c, TableConstraint::Check { name, .. } if t.constraints.iter().any(|k| matches!(k, TableConstraint::Check { name: n, .. } if n == name)));
+                if t.constraints.contains(&c) || name_taken { None } else { Some(MigrationAction::AddConstraint { table: t.name.clone(), constraint: c }) }
             }
             6 | 7 | 8 => {
                 // explicit RemoveConstraint of something the baseline holds (occasionally followed by adding it back)
